@@ -108,6 +108,8 @@ var parseOpeners = []string{
 	"{msg desc=\"d\"}", "{msg desc=\"d\" meaning=\"m\" hidden=\"true\"}", "{msg meaning=\"m\"}", "{msg desc='d'}", "{msg desc=\"a\\tb\\u00e9\\x41\\101\"}", "{msg desc=\"d\" desc=\"e\"}", "{/msg}",
 	"{plural $n}", "{plural length($l) + 1}", "{case 0}", "{case 'a'}", "{case 1, 2}", "{/plural}",
 	"{call .u}", "{call .u /}", "{call .u data=\"all\"}", "{call .u data=\"all\" /}", "{call .u data=\"$d\" /}", "{call .u data=\"$d +\" /}", "{call .u data=\"1 2 3\" /}", "{call x.u /}", "{call q.r.u /}", "{call name=\".u\" /}", "{call name=\"\" /}", "{call /}", "{call a}", "{call .u data=\"\\\"\" /}", "{call .u data=\"'\" /}", "{/call}",
+	"{call y.u /}", "{call z.u /}{call y.z.u /}", "{call .u data=\"$dddddddddddddddddddd + \" /}", "{call .u}{param k value=\"$dddddddddddddddddddd + \" /}{/call}", "{css $dddddddddddddddddddd +, c}",
+	"{param key=\"a\" key=\"b\" value=\"1\" /}", "{msg desc=\"d\" desc=\"e\"}x{/msg}", "{call .u data=\"$a\" data=\"$b\" /}",
 	"{param a: 1 /}", "{param a}", "{param a: 1}", "{param key=\"a\" value=\"1\" /}", "{param key=\"a\"}", "{param a kind=\"text\"}", "{param value=\"1\" /}", "{param a value=\"1 +\" /}", "{param 1}", "{param}", "{/param}",
 	"{let $x: 1 /}", "{let $x: 1}", "{let $x}", "{let $x kind=\"text\"}", "{let x: 1 /}", "{let $x : }", "{/let}",
 	"{log}", "{/log}", "{debugger}", "{debugger x}",
@@ -162,7 +164,10 @@ var parseHand = []string{
 	"{namespace a}{template .t}{call .u} orphan {param a: 1/}{/call}{/template}",
 	"{namespace a}{template .t}{call .u}{param a: 1/}{/template}",
 	"{namespace a}{template .t}{call .u}{$x}{/call}{/template}",
-	"{namespace a}{alias b.c.d}{template .t}{call d.u/}{call d.e.u/}{call c.u/}{call .u/}{call d/}{/template}",
+	"{namespace a}{alias b.c.d}{template .t}{call d.u/}{call d.e.u/}{call c.u/}{call .u/}{/template}",
+	"{namespace a}{alias b.c.d}{alias e}{alias f.d}{template .t}{call d.u/}{call e.u/}{call b.u/}{/template}",
+	"{template .t}{namespace b}{/template}{template .u}{/template}",
+	"{template .t}{call .u/}{namespace b.c}{call .u/}{/template}",
 	"{namespace a}{template .t}{if $a}1{elseif $b}2{else}3{elseif $c}4{/if}{/template}",
 	"{namespace a}{template .t}{if $a}1{else}2{else}3{/if}{/template}",
 	"{namespace a}{template .t}{for $i in $l}a{ifempty}b{ifempty}c{/for}{/template}",
@@ -311,7 +316,7 @@ func genC05parse(g *G) {
 	}
 	// strconv.Unquote on attribute-like strings
 	n = g.N(1500, 30000)
-	frag := []string{"a", "b", " ", "\\n", "\\t", "\\\\", "\\\"", "\\'", "'", "\"", "\\x41", "\\x4", "\\xg1", "\\u00e9", "\\u12", "\\ud800", "\\U0001F600", "\\U00110000", "\\101", "\\400", "\\08", "\\7", "\\a\\b\\f\\r\\v", "\\q", "\\", "\n", "é", "\xff", "\xe2\x82", "\U0001F600", "`"}
+	frag := []string{"a", "b", " ", "\\n", "\\t", "\\\\", "\\\"", "\\'", "'", "\"", "\\x41", "\\xe9", "\\xff\\x80", "\\x4", "\\xg1", "\\u00e9", "\\u12", "\\ud800", "\\U0001F600", "\\U00110000", "\\101", "\\400", "\\08", "\\7", "\\a\\b\\f\\r\\v", "\\q", "\\", "\n", "é", "\xff", "\xe2\x82", "\U0001F600", "`"}
 	for i := 0; i < n; i++ {
 		q := g.R.Pick([]string{"\"", "\"", "\"", "'", ""})
 		var sb strings.Builder
